@@ -155,6 +155,14 @@ def run(ctx, chk):
                        'Ok result is %s' % (('&self.%s' % cache) if cache else fmt(p.value)[:80]))
                 chk.ob('C02.S3', 'snapshot:cache-untouched-without-accept', not [k for k in stores if k == cache], p.where[2],
                        'fields assigned on a non-accepting path: %s' % sorted(stores))
+        # loop invariant: whatever the retry loop carries as the reference generation into the next
+        # iteration is even (otherwise a copy taken while an update is in flight can be accepted)
+        from . import C03
+        sub = type(chk)('C02', LEVEL, chk.tier)
+        C03.run(ctx, sub)
+        for o in sub.obs:
+            if o['rule'] == 'C03.G4':
+                chk.ob('C02.S2', 'snapshot:loop-carried-reference-generation-even', o['ok'], o['where'], o['detail'])
         chk.floor('C02.S2', 'record reads', n_reads, 1)
         chk.floor('C02.S2', 'accept sites', n_accept, 1)
         chk.floor('C02.S2', 'reader paths', len(r.paths), 5)
@@ -271,10 +279,11 @@ def witnesses(chk):
                        stderr=subprocess.STDOUT, text=True)
     out = r.stdout
     import re
-    res = re.findall(r'test (\S+) - (\S+) \(line \d+\)( - compile fail)? \.\.\. (\w+)', out)
+    res = re.findall(r'test (\S+) - (\S+) \(line \d+\)( - compile fail| - compile)? \.\.\. (\w+)', out)
     for f, item, cf, verdict in res:
-        chk.ob('C02.S5', 'witness:%s%s' % (item, ':compile_fail' if cf else ':twin'), verdict == 'ok', 'witness/src/lib.rs',
-               '%s %s: %s' % (item, 'must not compile' if cf else 'must compile', verdict))
+        is_cf = cf.strip() == '- compile fail'
+        chk.ob('C02.S5', 'witness:%s%s' % (item, ':compile_fail' if is_cf else ':twin'), verdict == 'ok', 'witness/src/lib.rs',
+               '%s %s: %s' % (item, 'must not compile' if is_cf else 'must compile', verdict))
     chk.floor('C02.S5', 'witness doc-tests', len(res), 4)
     if r.returncode != 0 and not res:
         chk.ob('C02.S5', 'witness:run', False, 'witness/', out[-600:])
